@@ -215,6 +215,37 @@ fn faults_with_kind(cex: &Value) -> Result<String, String> {
         }
       }
     }
+    // generation of a general-purpose method whose id is already referenced (legal), with the key-id recording failing: the
+    // rollback must not take the pre-existing references with it
+    {
+      use identity_core::convert::FromJson;
+      let text = format!(r#"{{"id":"{did}","authentication":["{did}#k"],"assertionMethod":["{did}#k"]}}"#);
+      if let Ok(mut doc) = CoreDocument::from_json(&text) {
+        for fail_at in 0..4u32 {
+          let f2 = Faults { n: Rc::new(Cell::new(0)), fail: Rc::new(vec![fail_at]), log: Rc::new(Default::default()) };
+          let storage = Storage::new(FKeys(JwkMemStore::new(), f2.clone()), FIds(KeyIdMemstore::new(), f2.clone()));
+          let before = snapshot(&doc);
+          let res = block_on(doc.generate_method(&storage, JwkMemStore::ED25519_KEY_TYPE, JwsAlgorithm::EdDSA, Some("#k"), MethodScope::VerificationMethod));
+          let trace = f2.log.borrow().join(",");
+          f2.n.set(100_000);
+          match res {
+            Ok(_) => {
+              let _ = doc.remove_method(&did.to_url().join("#k").unwrap());
+              doc = CoreDocument::from_json(&text).unwrap();
+            }
+            Err(JwkStorageDocumentError::UndoOperationFailed { .. }) => {
+              doc = CoreDocument::from_json(&text).unwrap();
+            }
+            Err(_) => {
+              if snapshot(&doc) != before {
+                out.push(format!("[generate-referenced] schedule [{fail_at}] ({trace}): error returned but the document changed (references to the id existed before the call)"));
+                doc = CoreDocument::from_json(&text).unwrap();
+              }
+            }
+          }
+        }
+      }
+    }
     if let Some(line) = purge_dangling(&did) {
       out.push(line);
     }
